@@ -35,19 +35,23 @@ claims = {
          TECH + "seeded follow-up interleaving on the parts against allocator state; sibling contents and neighbouring allocations re-read after every step"),
  "C18": ("sim-arena", "5 C18", "The bump position is checked to be a multiple of the minimum alignment in force at region entry, after every operation inside aligned / scoped_aligned regions (all outer/inner pairs, nested, with chunk switches and unwinding), and of the outer alignment after exit; scoped_aligned restores the entry position exactly.",
          TECH + "per-step position invariant with the interpreter tracking the alignment in force; unwinding out of regions"),
+ "C17": ("sim-lock", "5 C17", "Two arenas with identical settings on two identically seeded SimHeaps execute the same history in lock-step; every step issues the same request through two different entry points (Bump / BumpScope / & / &mut / WithoutDealloc / WithoutShrink / dyn trait objects x panicking / try_ / typed sized / typed slice / generic layout / Allocator trait, alloc_try_with and its _mut / try_ twins, grow / shrink / deallocate / reserve / prepare+commit through different carriers, nested scopes, checkpoints); block offsets, lengths, contents, allocated(), remaining(), chunk count and position must stay equal, and the two heaps must see the same number of base-allocator calls.",
+         TECH + "lock-step execution of two arenas in identical simulated environments, entry-point pair chosen per step by the seed"),
+ "C19": ("sim-pool", "5 C19", "BumpPool under shuttle's seeded Random and PCT schedulers (the pool's mutex is shuttle's through the guarded hook; every base-allocator call is a scheduling point): 2-5 threads x 1-4 rounds of get / try_get / get_with_size / get_with_capacity, patterned allocations, guard drop or forget, re-get; invariants at every event: the arena behind each live guard is unique, arenas created <= peak live guards, no arena lost; all blocks re-read intact after the arenas moved between threads; pool reset / reset_to_start / drop checked against the SimHeap ledger.",
+         TECH + "controlled thread scheduling (shuttle Random + PCT, one seeded schedule per run), allocation refusals in try_get*; invariants per event and ledger check over the history"),
 }
 na = [
  ("C04", "compile-time property over programs: nothing executes, so there is no run, schedule, fault or history to simulate (DESIGN.md section 6)"),
  ("C11", "four pure functions of their input without state, environment, fault or interleaving; input-space search/proof is a different technique family (DESIGN.md section 6)"),
 ]
-pending = {"C17": "lock-step world", "C19": "pool world (shuttle)"}
+pending = {}
 for p, w in pending.items():
     if p not in claims:
         na.append((p, f"not claimed yet: the {w} serving this property (DESIGN.md section 5) is not built at this commit"))
 
 NOTE = ("Trusted: SimHeap, the interpreter's model (built from the documented safety contracts), the reference models, rustc. Sampling, not enumeration. "
         "Bounds: arena world <= 120 operations per run, nesting <= 7, 32 settings families x 5 minimum alignments, 5 base-allocator kinds, 5 grant policies; "
-        "collection world <= 80 operations per run, length <= 60, 6 settings x 3 of 5 element types (1/1, 4/4, 24/8, 16/16, zero-sized) x 5 vector kinds; string world <= 60 operations per run, <= 200 bytes, 4 settings x 4 string kinds.")
+        "collection world <= 80 operations per run, length <= 60, 6 settings x 3 of 5 element types (1/1, 4/4, 24/8, 16/16, zero-sized) x 5 vector kinds; string world <= 60 operations per run, <= 200 bytes, 4 settings x 4 string kinds; lock-step world <= 100 step pairs per run, 12 settings, 6 element types; pool world 2-5 threads x 1-4 rounds, one schedule per run (shuttle does not shrink schedules: minimisation shrinks rounds and threads).")
 checks = []
 for p in sorted(claims):
     eng, ref, text, tech = claims[p]
@@ -79,6 +83,10 @@ m = {
     "kind_free_text": "seeded interpreter driving the five vector kinds with tracked elements against a reference model and a drop ledger, on SimHeap"},
    {"name": "sim-strs", "path": "/verif/sim/src/bin/strs", "serves_properties": [p for p in sorted(claims) if "strs" in claims[p][0]],
     "kind_free_text": "seeded interpreter driving the four string types against std::string::String on SimHeap"},
+   {"name": "sim-lock", "path": "/verif/sim/src/bin/lock", "serves_properties": ["C17"],
+    "kind_free_text": "lock-step interpreter over two arenas on two identically seeded SimHeaps, 12 settings"},
+   {"name": "sim-pool", "path": "/verif/sim/src/bin/pool", "serves_properties": ["C19"],
+    "kind_free_text": "BumpPool scenario under shuttle (Random/PCT), one seeded schedule per run"},
    {"name": "simcore", "path": "/verif/simcore", "serves_properties": sorted(claims), "kind_free_text": "PRNG, SimHeap (the base-allocator seam), trace/replay format, worker protocol"},
  ],
  "checks": checks,
